@@ -273,7 +273,7 @@ def _run(ctx, api, DefaultParameters, res, rng, deep):
         spaces_A, spaces_B = {}, {}
 
         def space(grid, cache, kind, deg, **kw):
-            key = (kind, deg, tuple(sorted(kw.items())))
+            key = (kind, deg, repr(sorted(kw.items())))
             if key not in cache:
                 cache[key] = api.function_space(grid, kind, deg, scatter=False, **kw)
             return cache[key]
